@@ -206,10 +206,8 @@ def c09Facts (lang : Generate.LangCfg) (P : ParsedData) : J :=
     | .parent o => .arr [.str "parent".toList, .str o]
     | .inner o v => .arr [.str "inner".toList, .str o, .str v]
   let known (r : C09.Ref) : J :=
-    if C09.Known_generic_head lang P r then .str "generic-head".toList
-    else if C09.Known_def_original lang P r then .str "def-original".toList
-    else if C09.Known_parent lang P r then .str "parent".toList
-    else if C09.Known_inner lang P r then .str "inner".toList
+    -- the classes generic-head / parent / inner are repaired (821da1d, 03e02a1): one class is left
+    if C09.Known_def_original lang P r then .str "def-original".toList
     else .null
   let rn := C09.renamesOf P
   .obj [("defs", J.ofStrs (C09.allDefs lang P)),
